@@ -14,7 +14,8 @@
 (***************************************************************************)
 EXTENDS PatchOps, Merge7396, Equal, Scanner, JsonText, Json, TLC
 
-CONSTANT TraceFile, Mode,      \* Mode: "value" (structural, C01..) | "ordered" (member order and literals, C05)
+CONSTANT TraceFile, Mode,      \* Mode: "value" (structural, C01..) | "ordered" (member order and literals, C05) | "bytes" (C15: the
+                               \* raw output is read by the grammar of JsonText and checked for raw HTML characters)
          Dialect               \* "v5" | "v4": the legacy root package claims less (C18), see LegacyDontCare
 
 Trace == ndJsonDeserialize(TraceFile)
@@ -56,6 +57,16 @@ LegacyDontCare(op, r) ==
      \/ op.op = "test" /\ HasAwkward(op.value)
      \/ r.k = "err" /\ r.lab \notin LegacyErrLabels
 
+\* C15 on the raw output of a successful Apply: one well-formed JSON text (by the specification's own grammar) that
+\* denotes the reference document, free of raw < > & U+2028 U+2029 when EscapeHTML is on
+RawHtmlIn(b) == \E i \in 1..Len(b) : IsHtml(b[i]) \/ IsLineSep(b, i)
+OutputBytesBad(b, want, esc) ==
+  LET p == ParseText(b) IN
+  IF ~p.ok THEN "the output is not a well-formed RFC 8259 text (specification grammar)"
+  ELSE IF ~JEq(p.v, want) THEN "the output, read by the specification grammar, is not the reference document"
+  ELSE IF esc /\ RawHtmlIn(b) THEN "EscapeHTML is on but the output contains a raw < > & or U+2028/9"
+  ELSE ""
+
 Reset ==
   /\ Ev.ev = "Reset"
   /\ doc' = Ev.doc /\ opts' = Ev.opts /\ copied' = [lo |-> 0, hi |-> 0] /\ status' = "run" /\ bad' = ""
@@ -78,6 +89,7 @@ Op ==
                /\ doc' = a.r.v /\ copied' = a.copied /\ status' = "run"
                /\ bad' = IF ~Ev.ok THEN "the reference applies the operation, the library returned an error"
                          ELSE IF ~Same(Ev.post, a.r.v) THEN "the document after the operation differs from the reference"
+                         ELSE IF Mode = "bytes" THEN OutputBytesBad(Ev.bytes, a.r.v, opts.esc)
                          ELSE ""
           ELSE \* the reference fails with class a.r.cls
                /\ status' = "stopped" /\ UNCHANGED <<doc, copied>>
